@@ -110,7 +110,7 @@ pub fn eval_ds(payload: &str) -> String {
     out.join(";")
 }
 
-fn ds_suffix(universe: usize) -> String {
+pub fn ds_suffix(universe: usize) -> String {
     let mut s = String::new();
     for v in 0..universe {
         s.push_str(&format!(";f {v}"));
@@ -122,7 +122,7 @@ fn ds_suffix(universe: usize) -> String {
     s
 }
 
-fn ds_alphabet(universe: usize) -> Vec<String> {
+pub fn ds_alphabet(universe: usize) -> Vec<String> {
     let mut a = vec![];
     for v in 0..universe {
         a.push(format!("i {v}"));
@@ -137,7 +137,7 @@ fn ds_alphabet(universe: usize) -> Vec<String> {
     a
 }
 
-fn enumerate(alpha: &[String], len: usize, suffix: &str, emit: &mut dyn FnMut(String)) {
+pub fn enumerate(alpha: &[String], len: usize, suffix: &str, emit: &mut dyn FnMut(String)) {
     let mut idx = vec![0usize; len];
     loop {
         let ops: Vec<&str> = idx.iter().map(|&i| alpha[i].as_str()).collect();
